@@ -265,7 +265,11 @@ func runCrash(i int, rng *rand.Rand) (res worker.Result) {
 		return
 	}
 	if code, out, err := run(exe, "--crashchild", scriptPath, pathOld, "prefixonly"); err != nil || code != 0 {
-		res.Violate("harness:prefix-run", fmt.Sprintf("prefix-only child: exit %d %v: %s", code, err, out), wit(nil))
+		k := "harness:prefix-run"
+		if code == 5 {
+			k = "crash:prefix-operation-failed" // the library refused to open the store or failed a prefix Put/Delete
+		}
+		res.Violate(k, fmt.Sprintf("prefix-only child: exit %d %v: %s", code, err, out), wit(nil))
 		return
 	}
 	oldDoc, _, oldMode, oldPresent, err := readDoc(pathOld)
@@ -283,7 +287,7 @@ func runCrash(i int, rng *rand.Rand) (res worker.Result) {
 	code, out, err := run(crashat, "0", logPath, "--", exe, "--crashchild", scriptPath, pathNew)
 	if err != nil || code != 0 {
 		k := "harness:crashat"
-		if code == 23 {
+		if code == 23 || code == 25 {
 			k = "crash:operation-failed"
 		}
 		res.Violate(k, fmt.Sprintf("uninterrupted traced run: exit %d %v: %s", code, err, out), wit(nil))
@@ -314,8 +318,8 @@ func runCrash(i int, rng *rand.Rand) (res worker.Result) {
 		return
 	}
 	if newPresent && m.saves > 0 && newMode.Perm() != 0o600 {
+		// reported, and the crash points are enumerated all the same
 		res.Violate("file:mode", fmt.Sprintf("rewritten file has mode %o", newMode.Perm()), wit(nil))
-		return
 	}
 	same := oldPresent == newPresent && (!oldPresent || func() bool { k, _ := diffDocs(oldDoc, newDoc, ""); return k == "" }())
 
